@@ -327,21 +327,21 @@ Section Die.
     unfold fms. apply NoDup_map_filter. exact HN.
   Qed.
 
-  Lemma rest_die inc0 ms' :
-    rest_alloc inc0 ms' (map mk0 R ++ map mkf F) = map (fun r => mkCell r (alloc_of inc0 ms' r) 0%nat) R.
+  Lemma rest_die ceps inc0 ms' :
+    rest_alloc ceps inc0 ms' (map mk0 R ++ map mkf F) = map (fun r => mkCell r (alloc_of ceps inc0 ms' r) 0%nat) R.
   Proof.
     unfold rest_alloc. rewrite flat_map_app, !flat_map_map_c.
     assert (E2 : flat_map (fun x => if fixed (crect (mkf x)) then []
-                   else [mkCell (crect (mkf x)) (alloc_of inc0 ms' (crect (mkf x))) (cdepth (mkf x))]) F = []).
+                   else [mkCell (crect (mkf x)) (alloc_of ceps inc0 ms' (crect (mkf x))) (cdepth (mkf x))]) F = []).
     { apply flat_map_nil. intros c _. reflexivity. }
     rewrite E2, app_nil_r. rewrite <- flat_map_singleton.
     clear HW HP. induction R as [|c l IH]; [reflexivity|]. inversion HR; subst. cbn [flat_map].
     unfold mk0 at 1 2 3. cbn [crect cdepth]. rewrite H1. cbn [app]. f_equal. apply IH. assumption.
   Qed.
 
-  Definition out_cells (inc0 : bool) : list cell :=
+  Definition out_cells (ceps : Qc) (inc0 : bool) : list cell :=
     flat_map (fun m => map (fun r => mkCell (set_fixed r) [(mname m, 1)] 0%nat) (mrects m)) fms ++
-    map (fun r => mkCell r (alloc_of inc0 ms r) 0%nat) R.
+    map (fun r => mkCell r (alloc_of ceps inc0 ms r) 0%nat) R.
 
   Lemma prealloc_die : prealloc fixed_pairs =
     flat_map (fun m => map (fun r => mkCell (set_fixed r) [(mname m, 1)] 0%nat) (mrects m)) fms.
@@ -382,41 +382,48 @@ Proof.
   induction a as [|[k v] a IH]; cbn [app lookup]; [reflexivity|]. destruct (String.eqb k n); auto.
 Qed.
 
-Lemma alloc_of_keys inc0 ms c n : In n (map fst (alloc_of inc0 ms c)) -> In n (map mname ms).
+Lemma alloc_of_keys ceps inc0 ms c n : In n (map fst (alloc_of ceps inc0 ms c)) -> In n (map mname ms).
 Proof.
   unfold alloc_of. induction ms as [|m ms IH]; cbn [flat_map map]; [auto|].
   rewrite map_app, in_app_iff. intros [H|H]; [|right; auto].
-  cbv zeta in H. destruct (inc0 || Qcltb 0 (cov_ratio c (mrects m))); [|destruct H].
+  cbv zeta in H. destruct (inc0 || Qcltb 0 (clamp1 ceps (cov_ratio c (mrects m)))); [|destruct H].
   destruct H as [<-|[]]. left. reflexivity.
 Qed.
 
-Lemma lookup_alloc_of inc0 ms c m : NoDup (map mname ms) -> In m ms ->
-  lookup (mname m) (alloc_of inc0 ms c) =
-  if inc0 || Qcltb 0 (cov_ratio c (mrects m)) then Some (cov_ratio c (mrects m)) else None.
+Lemma lookup_alloc_of ceps inc0 ms c m : NoDup (map mname ms) -> In m ms ->
+  lookup (mname m) (alloc_of ceps inc0 ms c) =
+  if inc0 || Qcltb 0 (clamp1 ceps (cov_ratio c (mrects m))) then Some (clamp1 ceps (cov_ratio c (mrects m))) else None.
 Proof.
   induction ms as [|x ms IH]; cbn [map]; intros Hn Hin; [destruct Hin|].
   inversion Hn as [|? ? Hx Hn']; subst.
-  change (alloc_of inc0 (x :: ms) c) with
-    ((if inc0 || Qcltb 0 (cov_ratio c (mrects x)) then [(mname x, cov_ratio c (mrects x))] else [])
-     ++ alloc_of inc0 ms c).
+  change (alloc_of ceps inc0 (x :: ms) c) with
+    ((if inc0 || Qcltb 0 (clamp1 ceps (cov_ratio c (mrects x))) then [(mname x, clamp1 ceps (cov_ratio c (mrects x)))] else [])
+     ++ alloc_of ceps inc0 ms c).
   rewrite lookup_app. destruct Hin as [->|Hin].
-  - destruct (inc0 || Qcltb 0 (cov_ratio c (mrects m))).
+  - destruct (inc0 || Qcltb 0 (clamp1 ceps (cov_ratio c (mrects m)))).
     + cbn [lookup]. rewrite String.eqb_refl. reflexivity.
     + cbn [lookup]. apply lookup_absent. intro H. apply Hx. eapply alloc_of_keys. exact H.
   - assert (Hne : String.eqb (mname x) (mname m) = false).
     { apply String.eqb_neq. intro E. apply Hx. rewrite E. apply in_map. exact Hin. }
-    destruct (inc0 || Qcltb 0 (cov_ratio c (mrects x))); cbn [lookup]; [rewrite Hne|]; apply IH; assumption.
+    destruct (inc0 || Qcltb 0 (clamp1 ceps (cov_ratio c (mrects x)))); cbn [lookup]; [rewrite Hne|]; apply IH; assumption.
 Qed.
+
+(* the rounding allowance does nothing to a ratio that is at most 1 *)
+Lemma clamp1_id ceps a : a <= 1 -> clamp1 ceps a = a.
+Proof. intro H. unfold clamp1. assert (Qcltb 1 a = false) as -> by (qb2p; exact H). reflexivity. Qed.
+Lemma clamp1_nonneg ceps a : 0 <= a -> 0 <= clamp1 ceps a.
+Proof. intro H. unfold clamp1. destruct (Qcltb 1 a && Qcleb a (1 + ceps)); [qlra|exact H]. Qed.
 
 Lemma cov_ratio_nonneg c rs : wf c -> 0 <= cov_ratio c rs.
 Proof. intro W. rewrite cov_ratio_eq. apply div_pos_nonneg; [apply covered_nonneg|apply wf_area_pos; exact W]. Qed.
 
-Lemma ratio_alloc_of inc0 ms c m d : wf c -> NoDup (map mname ms) -> In m ms ->
-  ratio (mname m) (mkCell c (alloc_of inc0 ms c) d) = cov_ratio c (mrects m).
+Lemma ratio_alloc_of ceps inc0 ms c m d : wf c -> NoDup (map mname ms) -> In m ms ->
+  ratio (mname m) (mkCell c (alloc_of ceps inc0 ms c) d) = clamp1 ceps (cov_ratio c (mrects m)).
 Proof.
-  intros W Hn Hin. unfold ratio. cbn [calloc]. rewrite (lookup_alloc_of inc0 ms c m Hn Hin).
-  destruct (inc0 || Qcltb 0 (cov_ratio c (mrects m))) eqn:E; [reflexivity|].
-  apply orb_false_iff in E. destruct E as [_ E]. qb2p. pose proof (cov_ratio_nonneg c (mrects m) W). qlra.
+  intros W Hn Hin. unfold ratio. cbn [calloc]. rewrite (lookup_alloc_of ceps inc0 ms c m Hn Hin).
+  destruct (inc0 || Qcltb 0 (clamp1 ceps (cov_ratio c (mrects m)))) eqn:E; [reflexivity|].
+  apply orb_false_iff in E. destruct E as [_ E]. qb2p.
+  pose proof (clamp1_nonneg ceps _ (cov_ratio_nonneg c (mrects m) W)). qlra.
 Qed.
 
 Lemma area_of_app n l1 l2 : area_of n (l1 ++ l2) = area_of n l1 + area_of n l2.
@@ -520,22 +527,23 @@ Proof.
   rewrite !map_app, IH, map_map. reflexivity.
 Qed.
 
-Lemma alloc_of_in inc0 ms c p : In p (alloc_of inc0 ms c) ->
-  exists m, In m ms /\ p = (mname m, cov_ratio c (mrects m)) /\ (inc0 || Qcltb 0 (cov_ratio c (mrects m))) = true.
+Lemma alloc_of_in ceps inc0 ms c p : In p (alloc_of ceps inc0 ms c) ->
+  exists m, In m ms /\ p = (mname m, clamp1 ceps (cov_ratio c (mrects m))) /\
+            (inc0 || Qcltb 0 (clamp1 ceps (cov_ratio c (mrects m)))) = true.
 Proof.
   unfold alloc_of. intro H. apply in_flat_map in H. destruct H as (m & Hm & Hp). cbv zeta in Hp.
-  destruct (inc0 || Qcltb 0 (cov_ratio c (mrects m))) eqn:E; [|destruct Hp].
+  destruct (inc0 || Qcltb 0 (clamp1 ceps (cov_ratio c (mrects m)))) eqn:E; [|destruct Hp].
   destruct Hp as [<-|[]]. exists m. auto.
 Qed.
 
-Lemma nodup_keys_alloc_of inc0 ms c : NoDup (map mname ms) -> nodup_keys (alloc_of inc0 ms c) = true.
+Lemma nodup_keys_alloc_of ceps inc0 ms c : NoDup (map mname ms) -> nodup_keys (alloc_of ceps inc0 ms c) = true.
 Proof.
   induction ms as [|x ms IH]; cbn [map]; intro Hn; [reflexivity|].
   inversion Hn as [|? ? Hx Hn']; subst.
-  change (alloc_of inc0 (x :: ms) c) with
-    ((if inc0 || Qcltb 0 (cov_ratio c (mrects x)) then [(mname x, cov_ratio c (mrects x))] else [])
-     ++ alloc_of inc0 ms c).
-  destruct (inc0 || Qcltb 0 (cov_ratio c (mrects x))); cbn [app nodup_keys]; [|auto].
+  change (alloc_of ceps inc0 (x :: ms) c) with
+    ((if inc0 || Qcltb 0 (clamp1 ceps (cov_ratio c (mrects x))) then [(mname x, clamp1 ceps (cov_ratio c (mrects x)))] else [])
+     ++ alloc_of ceps inc0 ms c).
+  destruct (inc0 || Qcltb 0 (clamp1 ceps (cov_ratio c (mrects x)))); cbn [app nodup_keys]; [|auto].
   rewrite lookup_absent; [auto|]. intro H. apply Hx. eapply alloc_of_keys. exact H.
 Qed.
 
@@ -565,14 +573,16 @@ Section Main.
      proper rectangles without common area; the fixed regions are the rectangles of the fixed
      modules (Die takes them from netlist.fixed_rectangles()); refinable regions are not marked
      fixed; module names are distinct; a module without rectangles has a centre and a positive
-     area (no terminals) whose root sqrt_o returns exactly *)
+     area (no terminals) whose root sqrt_o returns exactly; each module's own rectangles are
+     proper and pairwise without common area *)
   Definition compatible (R Fx : list Rect) (mods : list nmod) : Prop :=
     Forall wf (R ++ Fx) /\ pairwise_no_ov (R ++ Fx) /\
     Forall (fun r => fixed r = false) R /\
     Fx = flat_map mrects (filter mfixed mods) /\
     Forall (fun m => mfixed m = true -> mrects m <> []) mods /\
     NoDup (map mname mods) /\
-    Forall (squarable sqrt_o) mods.
+    Forall (squarable sqrt_o) mods /\
+    Forall (fun m => pairwise_no_ov (mrects m) /\ Forall wf (mrects m)) mods.
 
   Lemma filter_squared mods : filter mfixed (map squared mods) = map squared (filter mfixed mods).
   Proof.
@@ -592,17 +602,17 @@ Section Main.
   Proof. rewrite map_map. apply map_ext. reflexivity. Qed.
 
   (* the list of cells the construction hands to the Allocation constructor *)
-  Definition expected (inc0 : bool) (R : list Rect) (mods : list nmod) : list cell :=
-    out_cells R (map squared mods) inc0.
+  Definition expected (ceps : Qc) (inc0 : bool) (R : list Rect) (mods : list nmod) : list cell :=
+    out_cells R (map squared mods) ceps inc0.
 
-  Theorem ia_cells feps aeps inc0 R Fx mods : compatible R Fx mods -> 0 < feps -> feps < 1 ->
-    initial_allocation sqrt_o feps aeps inc0 R Fx mods =
+  Theorem ia_cells feps ceps aeps inc0 R Fx mods : compatible R Fx mods -> 0 < feps -> feps < 1 ->
+    initial_allocation sqrt_o feps ceps aeps inc0 R Fx mods =
     match mk_allocation aeps (init_cells R Fx) with
     | None => Reject RCells
-    | Some _ => finalize aeps (expected inc0 R mods)
+    | Some _ => finalize aeps (expected ceps inc0 R mods)
     end.
   Proof.
-    intros (HW & HP & HR & HF & HX & HN & HS) H0 H1. unfold initial_allocation.
+    intros (HW & HP & HR & HF & HX & HN & HS & HD) H0 H1. unfold initial_allocation.
     destruct (mk_allocation aeps (init_cells R Fx)) as [cells|] eqn:E; [|reflexivity].
     apply mk_allocation_inv in E. subst cells.
     rewrite (create_squares_defined sqrt_o mods HS).
@@ -612,71 +622,79 @@ Section Main.
     rewrite EF in HW, HP |- *.
     rewrite (detect_die R ms HW HP feps H0 H1).
     rewrite (counts_die ms HN').
-    rewrite (rest_die R ms HR inc0 ms), prealloc_die. reflexivity.
+    rewrite (rest_die R ms HR ceps inc0 ms), prealloc_die. reflexivity.
   Qed.
 
-  Lemma ia_accept_inv feps aeps inc0 R Fx mods out : compatible R Fx mods -> 0 < feps -> feps < 1 ->
-    initial_allocation sqrt_o feps aeps inc0 R Fx mods = Accept out -> out = expected inc0 R mods.
+  Lemma ia_accept_inv feps ceps aeps inc0 R Fx mods out : compatible R Fx mods -> 0 < feps -> feps < 1 ->
+    initial_allocation sqrt_o feps ceps aeps inc0 R Fx mods = Accept out -> out = expected ceps inc0 R mods.
   Proof.
-    intros Hc H0 H1. rewrite (ia_cells feps aeps inc0 R Fx mods Hc H0 H1).
+    intros Hc H0 H1. rewrite (ia_cells feps ceps aeps inc0 R Fx mods Hc H0 H1).
     destruct (mk_allocation aeps (init_cells R Fx)); [|discriminate].
     intro H. apply finalize_inv in H. tauto.
   Qed.
 
-  Lemma cell_ratio inc0 R Fx mods c m d : compatible R Fx mods -> In c R -> In m mods ->
-    ratio (mname m) (mkCell c (alloc_of inc0 (map squared mods) c) d) = covered c (shape m) / area c.
+  Lemma cov_le_1 R Fx mods c m : compatible R Fx mods -> In c R -> In m mods -> cov_ratio c (shape m) <= 1.
   Proof.
-    intros (HW & HP & HR & HF & HX & HN & HS) Hc Hm.
+    intros (HW & HP & HR & HF & HX & HN & HS & HD) Hc Hm.
+    assert (W : wf c) by (rewrite Forall_forall in HW; apply HW; apply in_or_app; left; exact Hc).
+    rewrite Forall_forall in HD. destruct (HD m Hm) as [Pm Wm].
+    rewrite cov_ratio_eq. apply div_le_1; [|apply wf_area_pos; exact W].
+    apply covered_le_area; [exact W|apply shape_pairwise; exact Pm|apply shape_wf; exact Wm].
+  Qed.
+
+  Lemma cell_ratio ceps inc0 R Fx mods c m d : compatible R Fx mods -> In c R -> In m mods ->
+    ratio (mname m) (mkCell c (alloc_of ceps inc0 (map squared mods) c) d) = covered c (shape m) / area c.
+  Proof.
+    intros Hcomp Hc Hm. pose proof Hcomp as (HW & HP & HR & HF & HX & HN & HS & HD).
     assert (W : wf c) by (rewrite Forall_forall in HW; apply HW; apply in_or_app; left; exact Hc).
     change (mname m) with (mname (squared m)).
     rewrite ratio_alloc_of; [|exact W|rewrite names_squared; exact HN|apply in_map; exact Hm].
-    rewrite squared_rects. apply cov_ratio_eq.
+    rewrite squared_rects, clamp1_id by (apply (cov_le_1 R Fx mods c m Hcomp Hc Hm)). apply cov_ratio_eq.
   Qed.
 
-  Lemma in_expected_ref inc0 R mods c : In c R ->
-    In (mkCell c (alloc_of inc0 (map squared mods) c) 0%nat) (expected inc0 R mods).
+  Lemma in_expected_ref ceps inc0 R mods c : In c R ->
+    In (mkCell c (alloc_of ceps inc0 (map squared mods) c) 0%nat) (expected ceps inc0 R mods).
   Proof.
     intro Hc. unfold expected, out_cells. apply in_or_app. right.
-    apply (in_map (fun r => mkCell r (alloc_of inc0 (map squared mods) r) 0%nat)). exact Hc.
+    apply (in_map (fun r => mkCell r (alloc_of ceps inc0 (map squared mods) r) 0%nat)). exact Hc.
   Qed.
 
   (* every refinable cell records, for every module, exactly the covered fraction *)
-  Theorem ia_ratio feps aeps inc0 R Fx mods out : compatible R Fx mods -> 0 < feps -> feps < 1 ->
-    initial_allocation sqrt_o feps aeps inc0 R Fx mods = Accept out ->
+  Theorem ia_ratio feps ceps aeps inc0 R Fx mods out : compatible R Fx mods -> 0 < feps -> feps < 1 ->
+    initial_allocation sqrt_o feps ceps aeps inc0 R Fx mods = Accept out ->
     forall c, In c R -> exists cell, In cell out /\ crect cell = c /\ cdepth cell = 0%nat /\
       forall m, In m mods ->
         ratio (mname m) cell = covered c (shape m) / area c /\
-        0 <= ratio (mname m) cell /\
-        (pairwise_no_ov (mrects m) -> Forall wf (mrects m) -> ratio (mname m) cell <= 1).
+        0 <= ratio (mname m) cell /\ ratio (mname m) cell <= 1.
   Proof.
-    intros Hc H0 H1 Ha c Hin. rewrite (ia_accept_inv feps aeps inc0 R Fx mods out Hc H0 H1 Ha).
-    exists (mkCell c (alloc_of inc0 (map squared mods) c) 0%nat).
+    intros Hc H0 H1 Ha c Hin. rewrite (ia_accept_inv feps ceps aeps inc0 R Fx mods out Hc H0 H1 Ha).
+    exists (mkCell c (alloc_of ceps inc0 (map squared mods) c) 0%nat).
     split; [apply in_expected_ref; exact Hin|]. split; [reflexivity|]. split; [reflexivity|].
-    intros m Hm. rewrite (cell_ratio inc0 R Fx mods c m 0%nat Hc Hin Hm).
+    intros m Hm. rewrite (cell_ratio ceps inc0 R Fx mods c m 0%nat Hc Hin Hm).
     assert (W : wf c).
     { destruct Hc as (HW & _). rewrite Forall_forall in HW. apply HW. apply in_or_app. left. exact Hin. }
     pose proof (wf_area_pos c W) as Ap.
     split; [reflexivity|]. split.
     - apply div_pos_nonneg; [apply covered_nonneg|exact Ap].
-    - intros Pm Wm. apply div_le_1; [|exact Ap].
-      apply covered_le_area; [exact W|apply shape_pairwise; exact Pm|apply shape_wf; exact Wm].
+    - rewrite <- cov_ratio_eq. apply (cov_le_1 R Fx mods c m Hc Hin Hm).
   Qed.
 
   (* without zero entries a module is listed in a refinable cell iff it covers part of it *)
-  Theorem ia_listed_iff feps aeps R Fx mods out : compatible R Fx mods -> 0 < feps -> feps < 1 ->
-    initial_allocation sqrt_o feps aeps false R Fx mods = Accept out ->
+  Theorem ia_listed_iff feps ceps aeps R Fx mods out : compatible R Fx mods -> 0 < feps -> feps < 1 ->
+    initial_allocation sqrt_o feps ceps aeps false R Fx mods = Accept out ->
     forall c, In c R -> exists cell, In cell out /\ crect cell = c /\
       forall m, In m mods ->
         ((exists q, lookup (mname m) (calloc cell) = Some q) <-> 0 < covered c (shape m)).
   Proof.
-    intros Hc H0 H1 Ha c Hin. rewrite (ia_accept_inv feps aeps false R Fx mods out Hc H0 H1 Ha).
-    exists (mkCell c (alloc_of false (map squared mods) c) 0%nat).
+    intros Hc H0 H1 Ha c Hin. rewrite (ia_accept_inv feps ceps aeps false R Fx mods out Hc H0 H1 Ha).
+    exists (mkCell c (alloc_of ceps false (map squared mods) c) 0%nat).
     split; [apply in_expected_ref; exact Hin|]. split; [reflexivity|].
-    intros m Hm. cbn [calloc]. destruct Hc as (HW & HP & HR & HF & HX & HN & HS).
+    intros m Hm. cbn [calloc]. pose proof (cov_le_1 R Fx mods c m Hc Hin Hm) as L1.
+    destruct Hc as (HW & HP & HR & HF & HX & HN & HS & HD).
     assert (W : wf c) by (rewrite Forall_forall in HW; apply HW; apply in_or_app; left; exact Hin).
     change (mname m) with (mname (squared m)).
     rewrite lookup_alloc_of; [|rewrite names_squared; exact HN|apply in_map; exact Hm].
-    rewrite squared_rects, cov_ratio_eq. cbn [orb].
+    rewrite squared_rects, (clamp1_id ceps _ L1), cov_ratio_eq. cbn [orb].
     pose proof (div_pos_iff (covered c (shape m)) (area c) (wf_area_pos c W)) as D.
     destruct (Qcltb 0 (covered c (shape m) / area c)) eqn:E; qb2p.
     - split; [intros _; apply D; exact E|intros _; eexists; reflexivity].
@@ -694,7 +712,7 @@ Section Main.
   Lemma fixed_not_on_ref R Fx mods c m : compatible R Fx mods -> In c R -> In m mods -> mfixed m = true ->
     covered c (shape m) = 0.
   Proof.
-    intros (HW & HP & HR & HF & HX & HN & HS) Hc Hm Hf. rewrite (fixed_shape mods m HX Hm Hf).
+    intros (HW & HP & HR & HF & HX & HN & HS & HD) Hc Hm Hf. rewrite (fixed_shape mods m HX Hm Hf).
     apply covered_zero. intros r Hr. destruct (pairwise_app R Fx HP) as (_ & _ & H). apply H; [exact Hc|].
     rewrite HF. apply in_flat_map. exists m. split; [apply filter_In; split; assumption|exact Hr].
   Qed.
@@ -708,15 +726,15 @@ Section Main.
   Qed.
 
   (* every fixed module owns exactly its own cells, wholly and alone *)
-  Theorem ia_fixed_owns feps aeps inc0 R Fx mods out : compatible R Fx mods -> 0 < feps -> feps < 1 ->
-    initial_allocation sqrt_o feps aeps inc0 R Fx mods = Accept out ->
+  Theorem ia_fixed_owns feps ceps aeps inc0 R Fx mods out : compatible R Fx mods -> 0 < feps -> feps < 1 ->
+    initial_allocation sqrt_o feps ceps aeps inc0 R Fx mods = Accept out ->
     forall m, In m mods -> mfixed m = true ->
       (forall r, In r (mrects m) -> In (mkCell (set_fixed r) [(mname m, 1)] 0%nat) out) /\
       (forall cell, In cell out -> 0 < ratio (mname m) cell ->
          exists r, In r (mrects m) /\ cell = mkCell (set_fixed r) [(mname m, 1)] 0%nat).
   Proof.
-    intros Hc H0 H1 Ha m Hm Hf. rewrite (ia_accept_inv feps aeps inc0 R Fx mods out Hc H0 H1 Ha).
-    pose proof Hc as (HW & HP & HR & HF & HX & HN & HS).
+    intros Hc H0 H1 Ha m Hm Hf. rewrite (ia_accept_inv feps ceps aeps inc0 R Fx mods out Hc H0 H1 Ha).
+    pose proof Hc as (HW & HP & HR & HF & HX & HN & HS & HD).
     unfold expected, out_cells. split.
     - intros r Hr. apply in_or_app. left. apply in_flat_map. exists (squared m).
       split; [apply fixed_in_fms; assumption|].
@@ -731,16 +749,16 @@ Section Main.
         pose proof (same_name mods m m' HN Hm Hm' E) as ->.
         rewrite squared_rects, (fixed_shape mods m HX Hm Hf) in Hr. exists r. split; [exact Hr|reflexivity].
       + apply in_map_iff in Hin. destruct Hin as (c & <- & Hc').
-        rewrite (cell_ratio inc0 R Fx mods c m 0%nat Hc Hc' Hm) in Hp.
+        rewrite (cell_ratio ceps inc0 R Fx mods c m 0%nat Hc Hc' Hm) in Hp.
         rewrite (fixed_not_on_ref R Fx mods c m Hc Hc' Hm Hf) in Hp.
         exfalso. unfold Qcdiv in Hp. revert Hp. generalize (/ area c). intros. qlra.
   Qed.
 
-  Lemma area_expected inc0 R Fx mods m : compatible R Fx mods -> In m mods ->
-    area_of (mname m) (expected inc0 R mods) =
+  Lemma area_expected ceps inc0 R Fx mods m : compatible R Fx mods -> In m mods ->
+    area_of (mname m) (expected ceps inc0 R mods) =
     (if mfixed m then Qcsum (map area (mrects m)) else 0) + Qcsum (map (fun c => covered c (shape m)) R).
   Proof.
-    intros Hc Hm. pose proof Hc as (HW & HP & HR & HF & HX & HN & HS).
+    intros Hc Hm. pose proof Hc as (HW & HP & HR & HF & HX & HN & HS & HD).
     unfold expected, out_cells. rewrite area_of_app. f_equal.
     - fold (pre_cells (filter mfixed (map squared mods))). destruct (mfixed m) eqn:Hf.
       + change (mname m) with (mname (squared m)). rewrite area_pre_fixed.
@@ -751,15 +769,15 @@ Section Main.
         apply filter_In in Hm'. destruct Hm' as [Hm' Hf'].
         pose proof (same_name mods m m' HN Hm Hm' E) as ->. rewrite squared_fixed in Hf'. congruence.
     - unfold area_of. rewrite map_map. apply Qcsum_map_ext. intros c Hin. cbn [crect].
-      rewrite (cell_ratio inc0 R Fx mods c m 0%nat Hc Hin Hm).
+      rewrite (cell_ratio ceps inc0 R Fx mods c m 0%nat Hc Hin Hm).
       apply div_mul_cancel. apply pos_neq0. apply wf_area_pos.
       rewrite Forall_forall in HW. apply HW. apply in_or_app. left. exact Hin.
   Qed.
 
   (* the area allocated to a module is the area of its shape on the cells open to it:
      the refinable cells for a soft or hard module, its own rectangles for a fixed module *)
-  Theorem ia_area feps aeps inc0 R Fx mods out : compatible R Fx mods -> 0 < feps -> feps < 1 ->
-    initial_allocation sqrt_o feps aeps inc0 R Fx mods = Accept out ->
+  Theorem ia_area feps ceps aeps inc0 R Fx mods out : compatible R Fx mods -> 0 < feps -> feps < 1 ->
+    initial_allocation sqrt_o feps ceps aeps inc0 R Fx mods = Accept out ->
     forall m, In m mods ->
       (mfixed m = false ->
          area_of (mname m) out = Qcsum (map (fun r => Qcsum (map (fun c => area_overlap c r) R)) (shape m))) /\
@@ -767,13 +785,13 @@ Section Main.
          area_of (mname m) out = Qcsum (map area (mrects m)) /\
          area_of (mname m) out = Qcsum (map (fun r => Qcsum (map (fun c => area_overlap c r) (R ++ Fx))) (mrects m))).
   Proof.
-    intros Hc H0 H1 Ha m Hm. rewrite (ia_accept_inv feps aeps inc0 R Fx mods out Hc H0 H1 Ha).
-    rewrite (area_expected inc0 R Fx mods m Hc Hm). split; intro Hf; rewrite Hf.
+    intros Hc H0 H1 Ha m Hm. rewrite (ia_accept_inv feps ceps aeps inc0 R Fx mods out Hc H0 H1 Ha).
+    rewrite (area_expected ceps inc0 R Fx mods m Hc Hm). split; intro Hf; rewrite Hf.
     - unfold covered. rewrite Qcplus_0_l. exact (Qcsum_swap (fun c r => area_overlap c r) R (shape m)).
     - assert (E : Qcsum (map (fun c => covered c (shape m)) R) = 0).
       { apply Qcsum_map_zero. intros c Hin. apply (fixed_not_on_ref R Fx mods c m Hc Hin Hm Hf). }
       rewrite E. split; [ring|]. rewrite Qcplus_0_r. apply Qcsum_map_ext. intros r Hr.
-      pose proof Hc as (HW & HP & HR & HF & HX & HN & HS).
+      pose proof Hc as (HW & HP & HR & HF & HX & HN & HS & HD).
       assert (Hin : In r (R ++ Fx)).
       { apply in_or_app. right. rewrite HF. apply in_flat_map. exists m.
         split; [apply filter_In; split; assumption|exact Hr]. }
@@ -785,8 +803,7 @@ Section Main.
   Definition well_placed (R Fx : list Rect) (mods : list nmod) : Prop :=
     R ++ Fx <> [] /\
     Forall (fun r => 0 <= xmin r /\ 0 <= ymin r) (R ++ Fx) /\
-    Forall (fun m => valid_identifier (mname m) = true) mods /\
-    Forall (fun m => pairwise_no_ov (mrects m) /\ Forall wf (mrects m)) mods.
+    Forall (fun m => valid_identifier (mname m) = true) mods.
 
   Lemma init_cells_accepted aeps R Fx mods : compatible R Fx mods -> well_placed R Fx mods -> 0 <= aeps ->
     mk_allocation aeps (init_cells R Fx) = Some (init_cells R Fx).
@@ -804,19 +821,19 @@ Section Main.
       apply in_map_iff in Hc. destruct Hc as (r & <- & _). destruct Hin.
   Qed.
 
-  Lemma crect_expected inc0 R Fx mods : compatible R Fx mods ->
-    map crect (expected inc0 R mods) = map set_fixed Fx ++ R.
+  Lemma crect_expected ceps inc0 R Fx mods : compatible R Fx mods ->
+    map crect (expected ceps inc0 R mods) = map set_fixed Fx ++ R.
   Proof.
-    intros (HW & HP & HR & HF & HX & HN & HS). unfold expected, out_cells.
+    intros (HW & HP & HR & HF & HX & HN & HS & HD). unfold expected, out_cells.
     fold (pre_cells (filter mfixed (map squared mods))).
     rewrite map_app, crect_pre, (fixed_rects_squared mods HX), <- HF, map_map. cbn [crect]. rewrite map_id.
     reflexivity.
   Qed.
 
-  Lemma expected_cases inc0 R mods cell : In cell (expected inc0 R mods) ->
+  Lemma expected_cases ceps inc0 R mods cell : In cell (expected ceps inc0 R mods) ->
     (exists m r, In m (filter mfixed (map squared mods)) /\ In r (mrects m) /\
                  cell = mkCell (set_fixed r) [(mname m, 1)] 0%nat) \/
-    (exists c, In c R /\ cell = mkCell c (alloc_of inc0 (map squared mods) c) 0%nat).
+    (exists c, In c R /\ cell = mkCell c (alloc_of ceps inc0 (map squared mods) c) 0%nat).
   Proof.
     unfold expected, out_cells. intro H. apply in_app_or in H. destruct H as [H|H].
     - left. apply in_flat_map in H. destruct H as (m & Hm & Hc). apply in_map_iff in Hc.
@@ -827,25 +844,25 @@ Section Main.
   Lemma in_squared mods m' : In m' (map squared mods) -> exists m, In m mods /\ m' = squared m.
   Proof. intro H. apply in_map_iff in H. destruct H as (m & <- & Hm). exists m. auto. Qed.
 
-  Theorem ia_ok feps aeps inc0 R Fx mods : compatible R Fx mods -> well_placed R Fx mods ->
+  Theorem ia_ok feps ceps aeps inc0 R Fx mods : compatible R Fx mods -> well_placed R Fx mods ->
     0 < feps -> feps < 1 -> 0 <= aeps ->
     (inc0 = true -> forall m, In m mods -> mfixed m = false -> exists c, In c R /\ 0 < covered c (shape m)) ->
-    initial_allocation sqrt_o feps aeps inc0 R Fx mods = Accept (expected inc0 R mods).
+    initial_allocation sqrt_o feps ceps aeps inc0 R Fx mods = Accept (expected ceps inc0 R mods).
   Proof.
     intros Hc Hwp H0 H1 Ha Htouch.
-    rewrite (ia_cells feps aeps inc0 R Fx mods Hc H0 H1), (init_cells_accepted aeps R Fx mods Hc Hwp Ha).
-    pose proof Hc as (HW & HP & HR & HF & HX & HN & HS). pose proof Hwp as (Hne & HQ & HV & HD).
+    rewrite (ia_cells feps ceps aeps inc0 R Fx mods Hc H0 H1), (init_cells_accepted aeps R Fx mods Hc Hwp Ha).
+    pose proof Hc as (HW & HP & HR & HF & HX & HN & HS & HD). pose proof Hwp as (Hne & HQ & HV).
     assert (HNs : NoDup (map mname (map squared mods))) by (rewrite names_squared; exact HN).
     assert (WR : forall c, In c R -> wf c).
     { intros c Hin. rewrite Forall_forall in HW. apply HW. apply in_or_app. left. exact Hin. }
     assert (WF : forall m r, In m mods -> mfixed m = true -> In r (mrects m) -> In r Fx).
     { intros m r Hm Hf Hr. rewrite HF. apply in_flat_map. exists m. split; [apply filter_In; split; assumption|exact Hr]. }
     unfold finalize. rewrite mk_allocation_intro; [reflexivity| | | | |].
-    - intro E. apply (f_equal (map crect)) in E. rewrite (crect_expected inc0 R Fx mods Hc) in E.
+    - intro E. apply (f_equal (map crect)) in E. rewrite (crect_expected ceps inc0 R Fx mods Hc) in E.
       cbn [map] in E. apply app_eq_nil in E. destruct E as [E1 E2]. apply map_eq_nil in E1.
       apply Hne. rewrite E1, E2. reflexivity.
     - apply forallb_forall. intros cell Hin. unfold cell_ok.
-      destruct (expected_cases inc0 R mods cell Hin) as [(m' & r & Hm' & Hr & ->)|(c & Hin' & ->)]; cbn [crect calloc].
+      destruct (expected_cases ceps inc0 R mods cell Hin) as [(m' & r & Hm' & Hr & ->)|(c & Hin' & ->)]; cbn [crect calloc].
       + apply filter_In in Hm'. destruct Hm' as [Hm' Hf']. destruct (in_squared mods m' Hm') as (m & Hm & ->).
         rewrite squared_fixed in Hf'. rewrite squared_rects, (fixed_shape mods m HX Hm Hf') in Hr.
         assert (Wr : wf r) by (rewrite Forall_forall in HW; apply HW; apply in_or_app; right; eapply WF; eauto).
@@ -855,19 +872,16 @@ Section Main.
         assert (Qcleb 0 1 = true) as -> by (qb2p; qlra). assert (Qcleb 1 1 = true) as -> by (qb2p; qlra). reflexivity.
       + destruct (WR c Hin') as [A B]. unfold wfb.
         rewrite (proj2 (Qcltb_true _ _) A), (proj2 (Qcltb_true _ _) B). cbn [andb]. unfold alloc_ok.
-        rewrite (nodup_keys_alloc_of inc0 _ c HNs), andb_true_r.
+        rewrite (nodup_keys_alloc_of ceps inc0 _ c HNs), andb_true_r.
         apply forallb_forall. intros p Hp. apply alloc_of_in in Hp. destruct Hp as (m' & Hm' & -> & _).
         destruct (in_squared mods m' Hm') as (m & Hm & ->). cbn [fst snd].
         rewrite Forall_forall in HV. rewrite squared_name, (HV m Hm), squared_rects. cbn [andb].
-        rewrite Forall_forall in HD. destruct (HD m Hm) as [Pm Wm].
         pose proof (cov_ratio_nonneg c (shape m) (WR c Hin')) as N0.
-        assert (N1 : cov_ratio c (shape m) <= 1).
-        { rewrite cov_ratio_eq. apply div_le_1; [|apply wf_area_pos; auto].
-          apply covered_le_area; [auto|apply shape_pairwise; exact Pm|apply shape_wf; exact Wm]. }
+        pose proof (cov_le_1 R Fx mods c m Hc Hin' Hm) as N1. rewrite (clamp1_id ceps _ N1).
         rewrite (proj2 (Qcleb_true _ _) N0), (proj2 (Qcleb_true _ _) N1). reflexivity.
     - unfold in_quadrant. apply forallb_forall. intros cell Hin.
       assert (Hq : In (crect cell) (map set_fixed Fx ++ R)).
-      { rewrite <- (crect_expected inc0 R Fx mods Hc). apply in_map. exact Hin. }
+      { rewrite <- (crect_expected ceps inc0 R Fx mods Hc). apply in_map. exact Hin. }
       rewrite Forall_forall in HQ. apply in_app_or in Hq. destruct Hq as [Hq|Hq].
       + apply in_map_iff in Hq. destruct Hq as (r & E & Hr).
         destruct (HQ r (in_or_app _ _ _ (or_intror Hr))) as [A B]. rewrite <- E.
@@ -875,15 +889,15 @@ Section Main.
         rewrite (proj2 (Qcleb_true _ _) A), (proj2 (Qcleb_true _ _) B). reflexivity.
       + destruct (HQ _ (in_or_app _ _ _ (or_introl Hq))) as [A B].
         rewrite (proj2 (Qcleb_true _ _) A), (proj2 (Qcleb_true _ _) B). reflexivity.
-    - apply no_overlap_pairwise; [exact Ha|]. rewrite (crect_expected inc0 R Fx mods Hc).
+    - apply no_overlap_pairwise; [exact Ha|]. rewrite (crect_expected ceps inc0 R Fx mods Hc).
       destruct (pairwise_app R Fx HP) as (PR & PF & PX).
       apply pairwise_app_intro; [apply pairwise_map_fixed; exact PF|exact PR|].
       intros a b Ha' Hb. apply in_map_iff in Ha'. destruct Ha' as (r & <- & Hr).
       change (area_overlap (set_fixed r) b) with (area_overlap r b). rewrite ov_sym. apply PX; assumption.
     - intros n Hn. apply module_names_in in Hn. destruct Hn as (cell & Hin & Hk).
       assert (G : forall m, In m mods -> (mfixed m = false -> exists c, In c R /\ 0 < covered c (shape m)) ->
-                  area_of (mname m) (expected inc0 R mods) <> 0).
-      { intros m Hm Hex. rewrite (area_expected inc0 R Fx mods m Hc Hm).
+                  area_of (mname m) (expected ceps inc0 R mods) <> 0).
+      { intros m Hm Hex. rewrite (area_expected ceps inc0 R Fx mods m Hc Hm).
         assert (S0 : 0 <= Qcsum (map (fun c => covered c (shape m)) R)).
         { apply Qcsum_map_nonneg. intros. apply covered_nonneg. }
         destruct (mfixed m) eqn:Hf.
@@ -902,7 +916,7 @@ Section Main.
           assert (0 < Qcsum (map (fun c => covered c (shape m)) R)).
           { apply (Qcsum_pos_in (fun c => covered c (shape m)) R c); auto. intros. apply covered_nonneg. }
           apply pos_neq0. revert H. generalize (Qcsum (map (fun c => covered c (shape m)) R)). intros. qlra. }
-      destruct (expected_cases inc0 R mods cell Hin) as [(m' & r & Hm' & Hr & ->)|(c & Hin' & ->)]; cbn [calloc map fst] in Hk.
+      destruct (expected_cases ceps inc0 R mods cell Hin) as [(m' & r & Hm' & Hr & ->)|(c & Hin' & ->)]; cbn [calloc map fst] in Hk.
       + destruct Hk as [<-|[]]. apply filter_In in Hm'. destruct Hm' as [Hm' Hf'].
         destruct (in_squared mods m' Hm') as (m & Hm & ->). rewrite squared_fixed in Hf'. rewrite squared_name.
         apply G; [exact Hm|]. intro. congruence.
@@ -911,7 +925,8 @@ Section Main.
         cbn [fst]. rewrite squared_name. apply G; [exact Hm|]. intro Hf.
         destruct inc0 eqn:Ei.
         * apply Htouch; auto.
-        * cbn [orb] in Hl. qb2p. rewrite squared_rects, cov_ratio_eq in Hl.
+        * cbn [orb] in Hl. qb2p.
+          rewrite squared_rects, (clamp1_id ceps _ (cov_le_1 R Fx mods c m Hc Hin' Hm)), cov_ratio_eq in Hl.
           exists c. split; [exact Hin'|]. apply (div_pos_iff _ (area c) (wf_area_pos c (WR c Hin'))). exact Hl.
   Qed.
 End Main.
@@ -936,6 +951,7 @@ Module Ex.
                        mkMod "H" false true (qc 1 1) (Some (qc 3 1, qc 3 2)) [H1];
                        mkMod "F1" true true (qc 1 1) (Some (qc 1 2, qc 7 2)) [F1] ].
   Definition feps := qc 1 1000000.
+  Definition ceps := qc 1 1000000000.
   Definition aeps := qc 1 1000000.
 
   Ltac qdec := first [ apply Qcltb_true | apply Qcleb_true | apply Qceqb_true ]; vm_compute; reflexivity.
@@ -951,6 +967,7 @@ Module Ex.
     - cbn [map mods mname]. repeat constructor; cbn [In]; intuition discriminate.
     - unfold mods. constructor; [|constructor; [|constructor; [|constructor]]]; intro E; try discriminate E.
       split; [eexists; reflexivity|]. split; [qdec|]. split; qdec.
+    - repeat constructor; cbn [mrects pairwise_no_ov]; auto; qdec.
   Qed.
 
   Example well_placed_ex : well_placed R [F1] mods.
@@ -959,7 +976,6 @@ Module Ex.
     - discriminate.
     - repeat constructor; qdec.
     - repeat constructor.
-    - repeat constructor; cbn [mrects pairwise_no_ov]; auto; qdec.
   Qed.
 
   (* the square of S *)
@@ -971,7 +987,7 @@ Module Ex.
   (* the result: F1's cell first, wholly F1's and marked fixed; A and B empty; C lists S with 3/8
      and H with 1/4 (both cover the same part of C: modules may overlap) *)
   Example result_ex :
-    agree_accept [0; 0; 0; 0]%Z (initial_allocation sq feps aeps false R [F1] mods)
+    agree_accept [0; 0; 0; 0]%Z (initial_allocation sq feps ceps aeps false R [F1] mods)
       [ mkCell (set_fixed F1) [("F1"%string, 1)] 0%nat; mkCell A [] 0%nat; mkCell B [] 0%nat;
         mkCell C [("S"%string, qc 3 8); ("H"%string, qc 1 4)] 0%nat ] = true.
   Proof. vm_compute. reflexivity. Qed.
@@ -979,7 +995,7 @@ Module Ex.
   (* with zero entries every module is listed in every refinable cell; accepted because every
      module touches some cell *)
   Example result_zero_ex :
-    agree_accept [0; 0; 0; 0]%Z (initial_allocation sq feps aeps true R [F1] mods)
+    agree_accept [0; 0; 0; 0]%Z (initial_allocation sq feps ceps aeps true R [F1] mods)
       [ mkCell (set_fixed F1) [("F1"%string, 1)] 0%nat;
         mkCell A [("S"%string, 0); ("H"%string, 0); ("F1"%string, 0)] 0%nat;
         mkCell B [("S"%string, 0); ("H"%string, 0); ("F1"%string, 0)] 0%nat;
@@ -989,12 +1005,12 @@ Module Ex.
   (* outside the hypotheses the construction does reject: a fixed module that covers half of a
      cell, and a soft module that touches no cell when zero entries are requested *)
   Example reject_half_ex :
-    agree_reject (initial_allocation sq feps aeps false R []
+    agree_reject (initial_allocation sq feps ceps aeps false R []
        [mkMod "F1" true true (qc 1 1) None [mkRect (qc 7 2) (qc 1 1) (qc 1 1) (qc 2 1) true true "_" TRUNK]])
        RFixedRatio = true.
   Proof. vm_compute. reflexivity. Qed.
   Example reject_untouched_ex :
-    agree_reject (initial_allocation sq feps aeps true R []
+    agree_reject (initial_allocation sq feps ceps aeps true R []
        [mkMod "S" false false (qc 4 1) (Some (qc 10 1, qc 10 1)) []]) RZeroArea = true.
   Proof. vm_compute. reflexivity. Qed.
 End Ex.
